@@ -366,7 +366,15 @@ def gen_c15(engine, mode="mixed"):
                 spec = rng.choice(choices)
                 tg = new_tag()
                 if spec == "parent-send":
-                    act = {"type": "xstate.sendParent", "params": {"event": {"type": "FROMCHILD", "tag": tg}}}
+                    prm = {"event": {"type": "FROMCHILD", "tag": tg}}
+                    pdelay = rng.choice((None, None, 10, 20, 50))
+                    if pdelay:
+                        # a delayed sendParent, with an id it can be cancelled (or superseded) by
+                        prm["delay"] = pdelay
+                        if rng.random() < 0.7:
+                            prm["id"] = rng.choice(("s1", "s2"))
+                    act = {"type": "xstate.sendParent", "params": prm}
+                    delay = None
                 else:
                     delay = rng.choice((None, None, 10, 20, 50, 0))
                     to = spec if rng.random() < 0.8 else {"$fn": {"k": "target", "name": "tgt", "v": spec}}
@@ -387,9 +395,14 @@ def gen_c15(engine, mode="mixed"):
                     push({"type": "CMD", "tag": new_tag(), "acts": acts}, t)
                 continue
             if r < 0.72:
-                if ref.root.sends:
-                    sid = rng.choice(sorted(ref.root.sends))
-                    push({"type": "CMD", "tag": new_tag(), "acts": [{"type": "xstate.cancel", "params": {"sendId": sid}}]}, t)
+                cands = [a for a in alive if a.sends and (a.parent is None or (a.ident[0] == "explicit" and a.parent is ref.root))]
+                if cands:
+                    who = rng.choice(cands)
+                    sid = rng.choice(sorted(who.sends))
+                    cact = [{"type": "xstate.cancel", "params": {"sendId": sid}}]
+                    acts = cact if who.parent is None else wrap_for(who, cact)
+                    if acts:
+                        push({"type": "CMD", "tag": new_tag(), "acts": acts}, t)
                 continue
             if r < 0.84:
                 kids = [c for c in ref.root.children if c.registered and c.alive]
